@@ -6,10 +6,13 @@ path = '/tmp/scratch/seed_matrix.json'
 if os.path.exists(path): out = json.load(open(path))
 extra = {'C01': ['C02'], 'C02': ['C01'], 'C03': ['C07', 'C04'], 'C04': ['C17', 'C07'], 'C05': ['C07', 'C06', 'C10'], 'C06': ['C17'], 'C07': ['C05', 'C10'], 'C08': ['C09'], 'C09': ['C08'], 'C10': ['C07'],
          'C11': ['C01'], 'C12': [], 'C13': ['C17'], 'C14': ['C15'], 'C15': ['C14'], 'C16': ['C17'], 'C17': ['C04', 'C06', 'C16'], 'C18': [], 'C19': []}
-for d in sorted(glob.glob('/tmp/wt_out/C*')):
-    pid = os.path.basename(d)
+def sources():
+    for d in sorted(glob.glob('/tmp/wt_out/C*')): yield d, os.path.basename(d), ''
+    for d in sorted(glob.glob('/tmp/wt2_out/C*')): yield d, os.path.basename(d), 'w2'
+    for d in sorted(glob.glob('/tmp/wt2_out/D*')): yield d, 'C' + os.path.basename(d)[1:], 'w3'
+for d, pid, wave in sources():
     for diff in sorted(glob.glob(d + '/m[0-9].diff')):
-        key = pid + '-' + os.path.basename(diff)[:-5]
+        key = pid + '-' + wave + os.path.basename(diff)[:-5]
         if key in out and not os.environ.get('FORCE'): continue
         res = {}
         for c in [pid] + extra.get(pid, []):
